@@ -534,6 +534,7 @@ class Database:
         self.utc_date = lambda: datetime.date(2024, 1, 1)
         self.now_ms = lambda: 0
         self.writer = None
+        self.row_observer = None  # callable(table_name, old_row, new_row) on every row change by UPDATE
         self.coverage: Dict[str, int] = {}
         self.read_cols = None  # set() to record column reads (canonicaliser soundness check)
 
@@ -2260,6 +2261,9 @@ class Session:
             del t.rows[key]
             t.rows[newkey] = upd
             self._log(('upd', t.name, key, newkey, old))
+            obs = self.db.row_observer
+            if obs is not None:
+                obs(t.name, old, upd)
         self.fire(t, 'AFTER', 'UPDATE', old, upd)
         return changed
 
